@@ -276,6 +276,17 @@ func writeEvidence(ck *props.Check, prop, tier string, r *core.Result, known map
 		"notes":                         r.Notes,
 		"technique":                     ck.Technique,
 	}
+	if len(r.ViolCount) > 0 {
+		vk := map[string]int64{}
+		n := 0
+		for k, v := range r.ViolCount {
+			if n++; n > 400 {
+				break
+			}
+			vk[k] = v
+		}
+		cov["violation_keys"] = vk
+	}
 	if r.EngineErr != "" {
 		cov["engine_error"] = r.EngineErr
 	}
